@@ -7,23 +7,29 @@ PROP = {'suites': ['c10', 'c10near'],
              6: 'a refresh token was accepted after the absolute expiry fixed when the grant was created',
              7: 'a refresh widened the resources (aud) beyond the original grant',
              8: "an access token issued under a grant was still reported live after the owning client's refresh had been refused past the grant's absolute expiry (the expired grant was not removed)",
-             9: 'a refresh of the owning client naming only resources of the original grant was refused as invalid_target (the grant can no longer return to its full extent)'},
+             9: 'a refresh of the owning client naming only resources of the original grant was refused as invalid_target (the grant can no longer return to its full extent)',
+             10: 'a refresh widened the authorization details: the refreshed token (response member, JWT claim) or what introspection reports afterwards carries a detail of an unsupported type or '
+                 'outside what the embedder granted to the grant',
+             11: 'a refresh that named no authorization details did not return to the full grant: the response does not carry exactly the granted details'},
  'title': 'Refresh tokens are client-bound, never widen or extend the grant, and rotate',
  'text': 'Theorems over the model: refresh_bound (for every store and refresh that yields tokens: token indexes a grant of the authenticated client, absolute expiry not passed and NOT moved, '
          'requested scopes within the original grant whose granted set is unchanged, same grant id re-saved, replacement token in the response under rotation), refresh_never_widens_resources (the '
-         "granted resources are untouched and the refreshed token's resources stay within them), rotation_one_shot (over ALL histories a used refresh token is never accepted again under rotation), "
-         'expired_refresh_removed, refresh_index_unique. Correspondence: refresh chains with sub/supersets of scopes and resources, foreign clients, ticks to and beyond expiry, rotation on/off, '
-         "grants from code and CIBA, introspection of refresh tokens (remaining lifetime compared with the model within 2 s). The embedder's ShouldIssueRefreshTokenFunc is part of the model "
-         '(issue_pol: never / always / only while offline_access is active / only for the authorization_code grant; option WithRefreshTokenGrantPol) and of the generated worlds; '
-         'rotation_independent_of_issue_policy: the refresh handler is the same program under every such function. Deterministic scenarios: scenarioRotationPolicy (each policy x rotation on/off, '
-         'refreshes that keep and drop offline_access, replay of every used token), scenarioGrantedSubset (owner grants a strict subset of requested scopes and resources, code / CIBA poll / CIBA '
-         'ping, then a refresh chain naming nothing, the denied scope, the denied resource). Deterministic scenario scenarioExpiredGrantRemoved: the access token outlives the grant; after the '
-         'refused refresh it must be dead at introspection, userinfo and TokenInfo (clause 8). Deterministic scenario scenarioReturnToFullGrant: a grant over three resources narrowed to every '
-         'non-empty subset in turn (prefix and non-prefix, every order), each followed by refreshes for every single original resource and for nothing (clause 9).',
+         "granted resources are untouched and the refreshed token's resources stay within them), refresh_never_widens_details (the granted authorization details are untouched; what the refreshed "
+         'token carries passed the all-of type check and the embedder compare function against the granted list - with the subset function it stays within the granted details; the response reports '
+         'exactly the stored active details), rotation_one_shot (over ALL histories a used refresh token is never accepted again under rotation), expired_refresh_removed, refresh_index_unique. '
+         'Correspondence: refresh chains with sub/supersets of scopes and resources, foreign clients, ticks to and beyond expiry, rotation on/off, grants from code and CIBA, introspection of refresh '
+         "tokens (remaining lifetime compared with the model within 2 s). The embedder's ShouldIssueRefreshTokenFunc is part of the model (issue_pol: never / always / only while offline_access is "
+         'active / only for the authorization_code grant; option WithRefreshTokenGrantPol) and of the generated worlds; rotation_independent_of_issue_policy: the refresh handler is the same program '
+         'under every such function. Deterministic scenarios: scenarioRotationPolicy (each policy x rotation on/off, refreshes that keep and drop offline_access, replay of every used token), '
+         'scenarioGrantedSubset (owner grants a strict subset of requested scopes and resources, code / CIBA poll / CIBA ping, then a refresh chain naming nothing, the denied scope, the denied '
+         'resource). scenarioAuthDetailsMatrix (RFC 9396: refresh chains naming subsets, supersets, mixed supported/unsupported lists, `[]` and nothing, for grants from authorization_code, CIBA '
+         'poll/ping/push and jwt-bearer, under every compare function). Deterministic scenario scenarioExpiredGrantRemoved: the access token outlives the grant; after the refused refresh it must be '
+         'dead at introspection, userinfo and TokenInfo (clause 8). Deterministic scenario scenarioReturnToFullGrant: a grant over three resources narrowed to every non-empty subset in turn (prefix '
+         'and non-prefix, every order), each followed by refreshes for every single original resource and for nothing (clause 9).',
  'note': 'Grants created by jwt-bearer (with a refresh token: only for an authenticated client registered for refresh_token, never the anonymous client - Props/C04.v jwt_bearer_within_client) enter '
          'the refresh chains of the model and of suite c10 like those of authorization_code and CIBA. Theorems are about the hand-written model (coq/Model); the model is tied to the Go code by the '
-         'correspondence runs only as far as the generators reach (counts in the evidence). Crypto, parsers and the clock are modelled (DESIGN.md section 8). Resource indicators are in the model; '
-         'authorization details are not.',
+         'correspondence runs only as far as the generators reach (counts in the evidence). Crypto, parsers and the clock are modelled (DESIGN.md section 8). Resource indicators and authorization '
+         'details (RFC 9396, abstractly: type + opaque payload id, compare function as one of four shapes) are in the model.',
  'technique': 'Coq proof (rely/guarantee index discipline + ghost-state invariant by induction over operation histories; per-request decision rules by symbolic execution of the handler program) tied '
               "to the code by differential correspondence; the theorem's executable predicate is also evaluated on the implementation's traces",
  'design_ref': 'DESIGN.md section 6, C10'}
